@@ -339,6 +339,15 @@ def runOp (op : String) (a : List String) : Option String :=
     let p ← unhex p; let sg ← optBytes sg; let pk ← optBytes pk; let m ← unhex m
     pure (match Envelope.isValid pr p sg pk m with
       | .valid => "ok 1" | .invalid => "ok 0" | .error => "err")
+  | "env.valid", [p, sg, pk, m, _enc] => do
+    -- the Encoding field does not take part in the decision
+    let p ← unhex p; let sg ← optBytes sg; let pk ← optBytes pk; let m ← unhex m
+    pure (match Envelope.isValid pr p sg pk m with
+      | .valid => "ok 1" | .invalid => "ok 0" | .error => "err")
+  | "env.new.bad", [_pl, t] => do
+    -- the payload cannot be marshalled: an error (the key has been drawn by then; nothing else happens)
+    let _ ← untape t
+    pure "err"
   | "env.seq", [p, sg, pk, m, steps] => do
     -- every validation is the pure function of the fields at that moment
     let p ← unhex p; let sg ← unhex sg; let pk ← unhex pk; let m ← unhex m
